@@ -7,9 +7,9 @@
 
 using namespace vf;
 
-struct Piece { ld ax, ay, bx, by; bool expected; bool cut_a, cut_b; };
+struct Piece { ld ax, ay, bx, by; bool expected; bool cut_a, cut_b; ld zone_a, zone_b; };  // zone: along-path uncertainty of the cut at that end (1.5 / sin of the crossing angle)
 
-struct Frac { i128 n, d; };  // d > 0
+struct Frac { i128 n, d; ld zone; };  // d > 0; zone = 1.5 / sin(angle between the open segment and the closed edge it crosses)
 static bool frac_less(const Frac& a, const Frac& b) { return a.n * b.d < b.n * a.d; }
 
 // cut every open segment at its proper crossings with the closed edges; classify pieces
@@ -26,11 +26,14 @@ static bool reference_cut(const Paths& S, const Paths& C, const Paths& O, int ct
         i128 den = ((i128)b.x - a.x) * ((i128)e.b.y - e.a.y) - ((i128)b.y - a.y) * ((i128)e.b.x - e.a.x);
         i128 num = ((i128)e.a.x - a.x) * ((i128)e.b.y - e.a.y) - ((i128)e.a.y - a.y) * ((i128)e.b.x - e.a.x);
         if (den < 0) { den = -den; num = -num; }
-        ts.push_back({num, den});
+        // a cut is located to within ~1.5 units perpendicular to the two edges; along the open path that is 1.5 / sin(angle)
+        ld la = hypotl((ld)(b.x - a.x), (ld)(b.y - a.y)), le = hypotl((ld)(e.b.x - e.a.x), (ld)(e.b.y - e.a.y));
+        ld sn = (ld)den / (la * le);
+        ts.push_back({num, den, 1.5L / std::max(sn, 1e-9L)});
       }
       std::sort(ts.begin(), ts.end(), frac_less);
       ncuts += (int)ts.size();
-      std::vector<Frac> bd; bd.push_back({0, 1}); for (auto& t : ts) bd.push_back(t); bd.push_back({1, 1});
+      std::vector<Frac> bd; bd.push_back({0, 1, 0}); for (auto& t : ts) bd.push_back(t); bd.push_back({1, 1, 0});
       for (size_t k = 0; k + 1 < bd.size(); ++k) {
         // midpoint parameter (n0*d1 + n1*d0) / (2*d0*d1)
         i128 N = bd[k].n * bd[k + 1].d + bd[k + 1].n * bd[k].d, D = 2 * bd[k].d * bd[k + 1].d;
@@ -43,7 +46,7 @@ static bool reference_cut(const Paths& S, const Paths& C, const Paths& O, int ct
         bool in_clip = fill(fr, wc), in_subj = fill(fr, ws);
         bool exp = ct == 1 ? in_clip : ct == 2 ? (!in_clip && !in_subj) : !in_clip;
         ld t0 = (ld)bd[k].n / (ld)bd[k].d, t1 = (ld)bd[k + 1].n / (ld)bd[k + 1].d;
-        Piece pc{(ld)a.x + t0 * (ld)(b.x - a.x), (ld)a.y + t0 * (ld)(b.y - a.y), (ld)a.x + t1 * (ld)(b.x - a.x), (ld)a.y + t1 * (ld)(b.y - a.y), exp, k > 0, k + 2 < bd.size()};
+        Piece pc{(ld)a.x + t0 * (ld)(b.x - a.x), (ld)a.y + t0 * (ld)(b.y - a.y), (ld)a.x + t1 * (ld)(b.x - a.x), (ld)a.y + t1 * (ld)(b.y - a.y), exp, k > 0, k + 2 < bd.size(), bd[k].zone, bd[k + 1].zone};
         pieces.push_back(pc);
       }
     }
@@ -66,6 +69,9 @@ static ld dist_to_pieces(ld x, ld y, const std::vector<Piece>& pcs) {
 
 static std::string judge_open(const Paths& O, const Paths& sol, const std::vector<Piece>& pieces, int ncuts) {
   const ld TOL = 1.5L, EPS = 1e-7L, STEP = 0.5L;
+  // end zone of a solution path: the largest along-path uncertainty of any cut (shallow crossings move a cut far along the path
+  // while staying within a unit of both edges; the statement bounds the perpendicular distance and the total length only)
+  ld ZMAX = TOL; for (auto& q : pieces) ZMAX = std::max(ZMAX, std::max(q.zone_a, q.zone_b));
   char buf[256];
   ld sol_len = 0, exp_len = 0;
   for (auto& q : pieces) if (q.expected) exp_len += hypotl(q.bx - q.ax, q.by - q.ay);
@@ -81,7 +87,7 @@ static std::string judge_open(const Paths& O, const Paths& sol, const std::vecto
         ld t = (ld)s / steps, x = p[i].x + t * dx, y = p[i].y + t * dy, arc = acc + t * L;
         ld d = dist_to_polylines(x, y, O);
         if (d > TOL + EPS) { snprintf(buf, sizeof buf, "solution_point_off_open_subject: (%.3Lf,%.3Lf) is %.3Lf from every open subject segment", x, y, d); return buf; }
-        if (arc >= TOL && arc <= total - TOL) {
+        if (arc >= ZMAX && arc <= total - ZMAX) {
           ld e = dist_to_pieces(x, y, pieces);
           if (e > TOL + EPS) { snprintf(buf, sizeof buf, "solution_covers_unexpected_part: (%.3Lf,%.3Lf) is %.3Lf from every expected piece", x, y, e); return buf; }
         }
@@ -92,7 +98,7 @@ static std::string judge_open(const Paths& O, const Paths& sol, const std::vecto
   for (auto& q : pieces) {
     if (!q.expected) continue;
     ld dx = q.bx - q.ax, dy = q.by - q.ay, L = hypotl(dx, dy);
-    ld lo = q.cut_a ? TOL : 0, hi = q.cut_b ? L - TOL : L;
+    ld lo = q.cut_a ? std::max(TOL, q.zone_a) : 0, hi = q.cut_b ? L - std::max(TOL, q.zone_b) : L;
     if (hi < lo) continue;
     int steps = std::max(1, (int)ceill((hi - lo) / STEP));
     for (int s = 0; s <= steps; ++s) {
@@ -101,7 +107,12 @@ static std::string judge_open(const Paths& O, const Paths& sol, const std::vecto
       if (d > TOL + EPS) { snprintf(buf, sizeof buf, "expected_piece_missing: (%.3Lf,%.3Lf) of an expected piece is %.3Lf from the open solution", x, y, d); return buf; }
     }
   }
-  if (fabsl(sol_len - exp_len) > 3.0L * ncuts + 1e-6L) { snprintf(buf, sizeof buf, "open_length: solution %.4Lf exact %.4Lf cuts %d", sol_len, exp_len, ncuts); return buf; }
+  if (fabsl(sol_len - exp_len) > 3.0L * ncuts + 1e-6L) {
+    // mechanical condition of the known finding: the excess is explained by shallow crossings, i.e. the clause holds when each
+    // cut is allowed 2 * (1.5 / sin(crossing angle)) instead of 3 units
+    ld angle_tol = 0; for (auto& q : pieces) { if (q.cut_a) angle_tol += std::max(1.5L, q.zone_a); if (q.cut_b) angle_tol += std::max(1.5L, q.zone_b); }
+    snprintf(buf, sizeof buf, "%s: solution %.4Lf exact %.4Lf cuts %d (angle-aware tolerance %.2Lf)", fabsl(sol_len - exp_len) <= angle_tol + 1e-6L ? "open_length_shallow_crossing" : "open_length", sol_len, exp_len, ncuts, angle_tol);
+    return buf; }
   return "";
 }
 
@@ -119,8 +130,16 @@ static void check_input(Reporter& rep, const Paths& S, const Paths& C, const Pat
     cur_ct = ct; cur_fr = fr;
     std::vector<Piece> pieces; int ncuts = 0;
     if (!reference_cut(S, C, O, ct, fr, pieces, ncuts)) { rep.add("skipped_reference_undecidable"); continue; }
-    cur_api = "paths"; BoolOut p = vfc::boolop(ct, fr, S, C, O, true, false);
-    cur_api = "tree"; TreeOut t = vfc::boolop_tree(ct, fr, S, C, O, true, false);
+    // paths execution, then polytree execution ON THE SAME OBJECT (the statement holds for every Execute), then a
+    // fresh object without the open subjects
+    BoolOut p; TreeOut t;
+    {
+      namespace CL = Clipper2Lib;
+      CL::Clipper64 c; c.AddSubject(vfc::to64(S)); c.AddOpenSubject(vfc::to64(O)); c.AddClip(vfc::to64(C));
+      CL::Paths64 sc, so; cur_api = "paths"; p.ok = c.Execute((CL::ClipType)ct, (CL::FillRule)fr, sc, so); p.closed = vfc::from64(sc); p.open = vfc::from64(so);
+      CL::PolyTree64 tr; CL::Paths64 to; cur_api = "tree"; t.ok = c.Execute((CL::ClipType)ct, (CL::FillRule)fr, tr, to);
+      t.open = vfc::from64(to); t.flat = vfc::from64(CL::PolyTreeToPaths64(tr));
+    }
     cur_api = "closed_only"; BoolOut q = vfc::boolop(ct, fr, S, C, Paths(), true, false);
     rep.add("lib_calls", 3); rep.add("cases", 2); rep.add("compared", 2);
     bool any_exp = false, any_unexp = false; for (auto& x : pieces) (x.expected ? any_exp : any_unexp) = true;
@@ -163,9 +182,16 @@ int main(int argc, char** argv) {
   }
   int k = (int)a.opti("k", 5), nmax = (int)a.opti("nmax", 3), ko = (int)a.opti("ko", 6), omax = (int)a.opti("omax", 3), nopen = (int)a.opti("nopen", 1);
   auto PS = board_PS(a.seed), PC = board_PC(a.seed), PO = board_PO(a.seed);
+  std::string oboard = a.opt("oboard", "generic");
+  // "aligned": open-path points sharing x or y coordinates, so that open paths start, end and run horizontally / vertically
+  if (oboard == "aligned") PO = {{2, 40}, {98, 40}, {50, 3}, {50, 97}, {20, 75}, {80, 75}, {33, 22}, {66, 22}};
   std::vector<Path> subs = polygons_over(PS, k, 3, nmax), clips = polygons_over(PC, k, 3, nmax);
-  std::vector<Path> lines;
-  for (int n = 2; n <= omax; ++n) { std::vector<std::vector<int>> t; enum_tuples(ko, n, false, t); for (auto& idx : t) { Path p; for (int i : idx) p.push_back(PO[i]); lines.push_back(p); } }
+  std::vector<Path> lines; std::vector<char> is_loop;
+  for (int n = 2; n <= omax; ++n) { std::vector<std::vector<int>> t; enum_tuples(ko, n, false, t); for (auto& idx : t) { Path p; for (int i : idx) p.push_back(PO[i]); lines.push_back(p); is_loop.push_back(0); } }
+  // "loops": open paths that return to their first point (an outline given as an open path); the coincidence of the last
+  // vertex with the first is by construction, so general position is judged on the closed version of the loop
+  if (a.opti("loops", 0)) { lines.clear(); is_loop.clear(); std::vector<std::vector<int>> t; enum_tuples(ko, 3, false, t); if (omax >= 4) enum_tuples(ko, 4, false, t);
+    for (auto& idx : t) { Path p; for (int i : idx) p.push_back(PO[i]); p.push_back(p[0]); lines.push_back(p); is_loop.push_back(1); } }
   u64 idx = 0; bool done = true;
   for (auto& s : subs) {
     for (auto& c : clips) {
@@ -173,9 +199,11 @@ int main(int argc, char** argv) {
       if (rep.out_of_time()) { done = false; goto out; }
       if (!general_position(Paths{s, c})) { rep.add("skipped_not_general_position", lines.size()); continue; }
       if (nopen == 1) {
-        for (auto& l : lines) {
+        for (size_t li = 0; li < lines.size(); ++li) {
+          const Path& l = lines[li];
           rep.add("inputs_enumerated");
-          if (!general_position_mixed(Paths{s, c, l}, {1, 1, 0})) { rep.add("skipped_not_general_position"); continue; }
+          bool gp = is_loop[li] ? general_position_mixed(Paths{s, c, Path(l.begin(), l.end() - 1)}, {1, 1, 1}) : general_position_mixed(Paths{s, c, l}, {1, 1, 0});
+          if (!gp) { rep.add("skipped_not_general_position"); continue; }
           check_input(rep, Paths{s}, Paths{c}, Paths{l});
           rep.sample("S=" + pstr(Paths{s}) + " C=" + pstr(Paths{c}) + " O=" + pstr(Paths{l}));
         }
@@ -190,7 +218,7 @@ int main(int argc, char** argv) {
     }
   }
 out:
-  if (done) rep.bounds_completed.push_back("closed k=" + std::to_string(k) + " n<=" + std::to_string(nmax) + "; open ko=" + std::to_string(ko) + " n<=" + std::to_string(omax) + " count=" + std::to_string(nopen));
+  if (done) rep.bounds_completed.push_back("open board " + oboard + (a.opti("loops", 0) ? " loops" : "") + " closed k=" + std::to_string(k) + " n<=" + std::to_string(nmax) + "; open ko=" + std::to_string(ko) + " n<=" + std::to_string(omax) + " count=" + std::to_string(nopen));
   rep.write();
   return 0;
 }
